@@ -372,6 +372,13 @@ def main(run_func, pid):
     ap.add_argument('--replay')
     a = ap.parse_args()
     seed = int(os.environ.get('VERIF_SEED', '0'))
+    if a.replay:
+        # a replay file records the seed and tier of the run that found it: re-run the check under the same conditions
+        rp = a.replay if os.path.isabs(a.replay) else os.path.join(VERIF, a.replay)
+        rec = json.load(open(rp))
+        seed, a.tier = int(rec.get('seed', seed)), rec.get('tier', a.tier)
+        print(f'replaying {a.replay}: property={rec.get("property")} seed={seed} tier={a.tier} kind={rec.get("kind")}')
+        print('recorded input:', json.dumps(rec.get('input'), default=str)[:800])
     ctx = Ctx(pid, a.tier, seed)
     try:
         run_func(ctx)
